@@ -36,7 +36,11 @@ CHECKS.update({
             "a live session and in an independent fresh-process reference decryptor, caller buffers (incl. spare capacity, reused after the call) must be unchanged. PROVED over all histories (one service/product, default "
             "key ids): the record a successful Encrypt returns decrypts to exactly the encrypted payload in another process that has only the metastore and the KMS (empty tables, caching off), at that moment "
             "and at every later point of the history (cache-coherence invariant + symbolic execution of the cache-less Decrypt).",
-            "Partial: that a LIVE CACHED session returns the payload (keys in its caches are still open: reference-count/liveness invariant) is not a theorem; it is decided by the correspondence and the monitor.", "6/C01"),
+            "and at every later point of the history (cache-coherence invariant + symbolic execution of the cache-less Decrypt); AND inside one long-lived process with key caches of any policy and capacity: after any "
+            "history of new factories/sessions, encrypts and decrypts under any fault plans, clock changes and revocations, a fault-free Decrypt in any live session of the same partition id returns exactly the payload "
+            "(total correctness: liveness invariant on reference counts with a ghost map of holds, Envelope/Live.v 2900 lines).",
+            "Not in the theorems: histories that close sessions/factories or use the session cache, region-suffixed ids, stored rows with creation stamp 0 (side condition nz_store), concurrency (C08/C16 models); "
+            "these are decided by the correspondence and the monitors.", "6/C01"),
  "C02": env("Fault plans (err / false duplicate / error-after-write on every metastore, KMS, AEAD, allocator call, singles and pairs) on cold/warm/rotating states: a returned record's IK row and SK row must be in the "
             "authoritative store at return and a fresh process must decrypt it; an unfaulted encrypt must succeed. PROVED over all histories (any fault plans, policies, evictions, restarts, revocations; one "
             "service/product, default key ids): every record ever returned names a stored intermediate key row whose parent system key row is stored, and is sealed so that those rows and the KMS open it "
@@ -114,7 +118,8 @@ CHECKS["C18"] = dict(
 
 CHECKS["C08"] = dict(
   text="Coq theorem (counting invariant, induction over schedules): for ANY number of goroutines, ANY schedule and ANY set of entries evicted at each load (every policy, capacity >= 1) no goroutine ever uses a "
-       "destroyed key and reference counts are exact (cache reference + holders); the unlock-then-count order of the tree before fix 8f60ea4 is refuted by a 15-step schedule. Tie: seeded random and PCT-priority "
+       "destroyed key and reference counts are exact (cache reference + holders); the unlock-then-count order of the tree before fix 8f60ea4 is refuted by a 15-step schedule. Sequential half on the envelope "
+       "model (Envelope/Live.v): through any history of factories, sessions, encrypts/decrypts with any faults, evictions, refreshes and reloads every key sitting in a key cache is open. Tie: seeded random and PCT-priority "
        "schedules of 2-4 real goroutines against one factory with capacity-1/2 caches under a cooperative controller whose yield points are inserted by the overlay before every lock acquisition, "
        "reference-count update and condition wait; monitors: every operation on an open session succeeds with the right bytes, no use after destroy, no double release, no deadlock.",
   note="Partial: the Go scheduler and memory model are represented by interleavings of the blocks between synchronisation points; data-race freedom is assumed; asynchronous eviction callbacks run uncontrolled. "
